@@ -255,7 +255,33 @@ def forward_route_first_server(P, D, s, prop=None):
             "why": "dest[0] of a forward route: the loader builds a forward route only with a non-empty server list"}
 
 
-PATTERNS = [host_offset, index_from_own_enumeration, forward_route_first_server]
+def pointer_high_octet(P, D, s, prop=None):
+    """0xC0 + (node.data >> 8) as u8 in the name writer: a suffix-tree node is chosen as a pointer target only when its offset is below
+    0x4000 (C14.R3), so the high octet of the offset is below 0x40 however the chosen node reaches this line"""
+    if s.kind != "overflow" or s.what != "Overflow(Add)" or not s.body.id.split("::{")[0].endswith("dns::dnspkt::push_prefix"):
+        return None
+    body = s.body
+    pr = D.prover(body)
+    n = len(body.blocks[s.bb]["stmts"])
+    a, b = [norm(pr.T.operand(o, s.bb, n)) for o in s.ops[:2]]
+    for c, v in ((a, b), (b, a)):
+        if not is_const(c, 0xC0):
+            continue
+        while v[0] == "cast":
+            v = norm(v[3])
+        if not (v[0] == "bin" and v[1] in ("Shr", "ShrUnchecked") and is_const(norm(v[3]), 8)):
+            continue
+        x = norm(v[2])
+        alts = [x]
+        for _ in range(4):
+            alts = [z for y in alts for z in ([norm(q) for q in y[1]] if y[0] == "phi" else [y])]
+        if alts and all(y[0] == "field" and y[2] == "data" for y in alts):
+            return {"class": "internal", "requires": ("C14.R3",), "pattern": "pointer-high-octet",
+                    "why": "0xc0 + (offset >> 8) of a suffix-tree node: a node is a pointer target only when its offset is below 0x4000"}
+    return None
+
+
+PATTERNS = [host_offset, index_from_own_enumeration, forward_route_first_server, pointer_high_octet]
 
 
 def match(P, D, s, prop):
